@@ -431,3 +431,31 @@ def check_aligned_pairs(ctx, rule: str):
         ok = bool(pair_calls) and not bad
         ctx.ob(rule, construct(fi, "feature and target are paired through index-aligned pandas operations"), ok, loc(fi, bad[0] if bad else None),
                "" if ok else ("no groupby/crosstab pairing found" if not pair_calls else f"`{short(bad[0])}` drops the index: rows are paired by position, which breaks for permuted / relabelled indices"))
+
+
+def check_row_order_free(ctx, rule: str):
+    """The order of categorical modalities must be a function of (modality, target rate) only: a
+    first-appearance order (groupby(sort=False), unique, drop_duplicates, dict.fromkeys on the rows)
+    that survives into the ranking makes ties depend on the order of the rows."""
+    repo = ctx.repo
+    ft = repo.find_function(f"{F_BASE}::target_rate")
+    gb = [c for c in calls(ft, "groupby")]
+    ok = bool(gb)
+    for c in gb:
+        sv = kwarg(c, "sort")
+        if sv is not None and const_value(sv) is not True:
+            ok = False
+    first_seen = [c for c in ast.walk(ft.node) if isinstance(c, ast.Call) and call_name(c) in ("unique", "drop_duplicates", "fromkeys", "factorize")]
+    ok = ok and not first_seen
+    sv = [c for c in calls(ft, "sort_values")]
+    ok = ok and len(sv) == 1
+    ctx.ob(rule, construct(ft, "ties between equal target rates are broken by the modality itself, not by row order"), ok, loc(ft, gb[0] if gb else None),
+           "" if ok else "groupby(sort=False) / first-appearance de-duplication feeds a stable sort: modalities with equal target rates are ordered by where they first appear, so permuting the rows changes the order (and the carved groups)")
+    fi = repo.find_function(f"{F_QUAL}::CategoricalDiscretizer.fit")
+    defs = {}
+    for n in walk_no_nested(fi.node):
+        if isinstance(n, ast.Assign) and isinstance(n.targets[0], ast.Name):
+            defs.setdefault(n.targets[0].id, n.value)
+    no = defs.get("new_order")
+    ok = no is not None and unparse(no) == "list(target_rates[feature])"
+    ctx.ob(rule, construct(fi, "the categorical order is exactly the order of the target-rate table"), ok, loc(fi, no))
